@@ -27,6 +27,9 @@ impl Story {
     /// you don't want it to completely fail to run.
     pub fn set_allow_external_function_fallbacks(&mut self, v: bool) {
         self.allow_external_function_fallbacks = v;
+
+        // Whether a missing binding is acceptable has changed
+        self.has_validated_externals = false;
     }
 
     /// Bind a Rust function to an ink `EXTERNAL` function declaration.
@@ -82,6 +85,9 @@ impl Story {
         }
 
         self.externals.remove(func_name);
+
+        // The bindings have to be checked again before the next continue
+        self.has_validated_externals = false;
 
         Ok(())
     }
